@@ -135,6 +135,28 @@ type X struct {
 	Dir     string
 	ingestN int
 	held    bool
+	prebuilt map[int]string
+}
+
+// Prebuild builds the table of ingest operation number step ahead of time (a scheduler harness
+// does this outside the explored threads: writing the table is not what is being interleaved).
+func (x *X) Prebuild(step int, op Op) error {
+	p, err := x.BuildSST(op, fmt.Sprintf("v%d", step))
+	if err != nil {
+		return err
+	}
+	if x.prebuilt == nil {
+		x.prebuilt = map[int]string{}
+	}
+	x.prebuilt[step] = p
+	return nil
+}
+
+func (x *X) sstFor(step int, op Op, defVal string) (string, error) {
+	if p, ok := x.prebuilt[step]; ok {
+		return p, nil
+	}
+	return x.BuildSST(op, defVal)
 }
 
 // Hold holds back flushes (DB.VerifHoldFlushes) until Release; Apply releases by itself before an
@@ -358,13 +380,13 @@ func (x *X) Apply(step int, op Op) error {
 		}
 		return x.D.Apply(b, wo(op.Sync))
 	case "ingest":
-		p, err := x.BuildSST(op, defVal)
+		p, err := x.sstFor(step, op, defVal)
 		if err != nil {
 			return err
 		}
 		return x.D.Ingest(context.Background(), []string{p})
 	case "ingestexcise":
-		p, err := x.BuildSST(op, defVal)
+		p, err := x.sstFor(step, op, defVal)
 		if err != nil {
 			return err
 		}
